@@ -164,6 +164,7 @@ def c10(run):
 def c11(run):
     def gen(g):
         g.faults(q(run, 150, 2000))
+        g.fsk_fault(q(run, 150, 2000))
         g.exh_setters(q(run, [0x00, 0xff], PRIORS_Q), fault=True)
         g.hist(q(run, 150, 2000))
     return C.execute(run, gen, monitor=chain(M.mon_faults, M.mon_expect))
